@@ -14,13 +14,15 @@
 (***************************************************************************)
 EXTENDS Naturals, Sequences, FiniteSets, SequencesExt, TLC
 
-CONSTANTS NLines,         \* number of distinct valid lines of the connection (labels 1..NLines, secret of label i = i)
+CONSTANTS DecorKinds,     \* decoration kinds enumerated (subset of {"comment","blank","otherlabel","othercr","earlysame"})
+          NLines,         \* number of distinct valid lines of the connection (labels 1..NLines, secret of label i = i)
           Cases, Eols     \* hex cases (upper?) and line ends (CRLF?) enumerated: BOOLEAN, or {TRUE} in the quick configuration (neither changes a line's kind)
 
 Lines == 1..NLines
 \* a physical line: [kind, lab, upper] ; kinds: "valid" | "comment" | "blank" | "otherlabel" | "othercr" | "dup"
 Valid(l, up) == [kind |-> "valid", lab |-> l, upper |-> up]
-Decor == { [kind |-> k, lab |-> 0, upper |-> FALSE] : k \in {"comment", "blank", "otherlabel", "othercr"} }
+Decor == { [kind |-> k, lab |-> 0, upper |-> FALSE] : k \in {"comment", "blank", "otherlabel", "othercr", "earlysame"} }
+\* "earlysame": a label the connection does not use (0-RTT / exporter secret) WITH ITS OWN client random: accepted, never usable
 
 VARIABLES proto,         \* "tls12" | "tls13" | "quic"
           perm,          \* order of the valid lines
@@ -48,7 +50,7 @@ WithDecor == LET n == Len(DecorSeq)
                 \o SubSeq(Text, 2, Len(Text)) \o [i \in 1..(IF n > 2 THEN n - 2 ELSE 0) |-> D(i + 2)]
 
 \* keylog_reader.get_key_from_line (repaired: hex digits of either case); CR is removed before splitting into lines
-Accepted(line) == line.kind \in {"valid", "otherlabel", "othercr"}
+Accepted(line) == line.kind \in {"valid", "otherlabel", "othercr", "earlysame"}
 \* which accepted lines a connection uses: those with its client random and a label it knows
 Usable(line) == line.kind = "valid"
 
@@ -67,7 +69,7 @@ LookupMoment == IF proto = "quic" THEN 1 ELSE 3
 Effective(l) == LET m == SelectSeq(ListAt(LookupMoment), LAMBDA x : Usable(x) /\ x.lab = l) IN
                 IF m = <<>> THEN 0 ELSE l     \* all lines of a label carry the same secret (a set of secrets, not conflicting ones)
 
-Init == /\ proto \in {"tls12", "tls13", "quic"} /\ perm \in Perms /\ decor \in SUBSET {"comment", "blank", "otherlabel", "othercr"}
+Init == /\ proto \in {"tls12", "tls13", "quic"} /\ perm \in Perms /\ decor \in SUBSET DecorKinds
         /\ upper \in Cases /\ crlf \in Eols /\ dupOf \in 0..NLines /\ dupEach \in BOOLEAN /\ overlap \in BOOLEAN
         /\ split \in 0..(NLines + 1) /\ srcA \in {"file", "dsbpre", "dsb0", "dsb1", "dsb2"} /\ srcB \in {"dsb0", "dsb1", "dsb2"}
         /\ (proto = "quic" => Order(srcA) <= 1 /\ Order(srcB) <= 1)       \* QUIC: the secrets must precede the packets (as the property says)
